@@ -2,7 +2,7 @@
 workers die with it) under a generous wall-clock watchdog whose firing is *inconclusive*.
 Cases report through a Recorder; the parent merges the recorders."""
 import os, sys, json, time, signal, traceback, shutil, errno
-from . import common
+from . import common, linecov
 
 
 class Recorder:
@@ -74,6 +74,7 @@ def _child(i, case, fn, resdir, workroot, quiet):
     os.makedirs(work, exist_ok=True)
     rec = Recorder(case)
     out = {"i": i}
+    linecov.start(f"{os.getppid()}_{i}")
     try:
         if quiet:
             with common.quiet_fds(os.path.join(work, ".stdio")):
@@ -84,6 +85,7 @@ def _child(i, case, fn, resdir, workroot, quiet):
     except BaseException:
         out["rec"] = rec.dump()
         out["error"] = traceback.format_exc()[-4000:]
+    linecov.stop()
     try:
         tmp = os.path.join(resdir, f"{i}.tmp")
         with open(tmp, "w") as f:
